@@ -457,7 +457,53 @@ def canon(ctx, node, fi: FuncInfo) -> str:
     if node is None:
         return 'None'
     n = _CanonCalls(ctx, fi).visit(clone(node))
-    return ast.unparse(n)
+    return ast.unparse(alpha(n))
+
+
+def alpha(node):
+    """Bound variables of comprehensions and lambdas renamed to _b0, _b1, ... in order of binding (outermost first): two
+    expressions that differ only in the names of their bound variables get the same text."""
+    counter = [0]
+
+    class A(ast.NodeTransformer):
+        def __init__(self, env):
+            self.env = env
+
+        def visit_Name(self, n):
+            if n.id in self.env:
+                return ast.copy_location(ast.Name(id=self.env[n.id], ctx=n.ctx), n)
+            return n
+
+        def _comp(self, n):
+            env = dict(self.env)
+            gens = []
+            for g in n.generators:
+                it = A(env).visit(g.iter)
+                for t in ast.walk(g.target):
+                    if isinstance(t, ast.Name):
+                        env[t.id] = f'_b{counter[0]}'
+                        counter[0] += 1
+                gens.append(ast.comprehension(target=A(env).visit(g.target), iter=it, ifs=[A(env).visit(c) for c in g.ifs], is_async=g.is_async))
+            sub = A(env)
+            if isinstance(n, ast.DictComp):
+                return ast.copy_location(ast.DictComp(key=sub.visit(n.key), value=sub.visit(n.value), generators=gens), n)
+            return ast.copy_location(type(n)(elt=sub.visit(n.elt), generators=gens), n)
+
+        visit_ListComp = visit_SetComp = visit_GeneratorExp = visit_DictComp = _comp
+
+        def visit_Lambda(self, n):
+            a = n.args
+            if a.vararg or a.kwarg or a.kwonlyargs or a.posonlyargs or a.defaults:
+                return self.generic_visit(n)
+            env = dict(self.env)
+            new_args = []
+            for x in a.args:
+                env[x.arg] = f'_b{counter[0]}'
+                counter[0] += 1
+                new_args.append(ast.arg(arg=env[x.arg]))
+            return ast.copy_location(ast.Lambda(args=ast.arguments(posonlyargs=[], args=new_args, kwonlyargs=[], kw_defaults=[], defaults=[]),
+                                                body=A(env).visit(n.body)), n)
+    return ast.fix_missing_locations(A({}).visit(clone(node)))
 
 
 def same(ctx, fi: FuncInfo, node, *expected: str) -> bool:
@@ -1105,3 +1151,28 @@ def callable_results(ctx, node, fi: FuncInfo, env=None, depth=0):
                 out.append((q, G.substitute(val, {k: w for k, w in b_.items() if k != q}, recursive=False)))
         return out
     return None
+
+
+def effective_returns(ctx, cls: ClassInfo, name: str, depth=0):
+    """The values the method `name` returns for objects of class `cls`: the method found along the MRO (an inherited one when
+    the class does not define it), with `return super().name(...)` followed into the next class.  [(SymPath-or-None, value)]"""
+    f = ctx.prog.find_method(cls, name)
+    if f is None or depth > 6:
+        raise AnalysisError(f'{cls.qualname} has no method {name}')
+    out = []
+    for _, v, sp in symex.returns(f):
+        if isinstance(v, ast.Call) and isinstance(v.func, ast.Attribute) and v.func.attr == name and isinstance(v.func.value, ast.Call) \
+                and isinstance(v.func.value.func, ast.Name) and v.func.value.func.id == 'super' and not v.func.value.args:
+            mro = ctx.prog.mro(f.cls)
+            nxt = None
+            for c in mro[mro.index(f.cls) + 1:]:
+                if name in c.methods:
+                    nxt = c
+                    break
+            if nxt is None:
+                raise AnalysisError(f'{f.loc}: super().{name} is not resolved')
+            out.extend(effective_returns(ctx, nxt, name, depth + 1))
+        else:
+            out.append((sp, v))
+    return out
+
